@@ -517,7 +517,7 @@ PROPS['C11'] = {
 }
 PROPS['C03'] = {
     'modules': ['IpcModel.Props.C03'],
-    'theorems': ['C03.C03_roots', 'C03.C03_iff', 'C03.C03_held_sender_connected', 'Ledger.inv_run', 'C03.C03_refine', 'C03.C03_unix_iff', 'C03.C03_eof_confirmed', 'Refine.sim_step',
+    'theorems': ['C03.C03_roots', 'C03.C03_iff', 'C03.C03_held_sender_connected', 'Ledger.inv_run', 'C03.C03_refine', 'C03.C03_unix_iff', 'C03.C03_eof_confirmed', 'C03.C03_inproc', 'Refine.sim_step',
                  'Reach.reachG_iff'],
     'builds': ['default', 'force-inprocess'],
     'scenarios': plus(world_scen(['default', 'force-inprocess'], 400, 8000),
@@ -546,7 +546,7 @@ PROPS['C03'] = {
 }
 PROPS['C09'] = {
     'modules': ['IpcModel.Props.C09'],
-    'theorems': ['C09.C09_no_hang', 'C09.C09_inv_step', 'C09.C09_error', 'C09.C09_transit', 'C09.C09_code_variant', 'C09.C09_no_hang_code'],
+    'theorems': ['C09.C09_no_hang', 'C09.C09_inv_step', 'C09.C09_error', 'C09.C09_transit', 'C09.C09_code_variant', 'C09.C09_no_hang_code', 'C09.C09_inproc_never_waits'],
     'builds': ['default', 'force-inprocess'],
     'scenarios': plus(world_scen(['default', 'force-inprocess'], 300, 6000), lambda tier, seed: [{'args': ['vanish', '--tier', tier], 'timeout': 600}],
                       lambda tier, seed: [{'args': ['crash', '--shape', str(i), '--tier', tier, '--only-stale', '1']} for i in ((1, 2, 4, 5, 6) if tier == 'thorough' else (1, 2))]),
@@ -566,7 +566,7 @@ PROPS['C09'] = {
 }
 PROPS['C19'] = {
     'modules': ['IpcModel.Props.C19', 'IpcModel.Props.C03', 'IpcModel.Props.C09'],
-    'theorems': ['C19.C19_shape', 'C19.C19_refine', 'C19.C19_step', 'C19.C19_same_world', 'C19.C19_alive_is_reachability', 'C19.C19_receivers_unique', 'Refine.rel_kill',
+    'theorems': ['C19.C19_shape', 'C19.C19_inproc', 'C19.C19_inproc_rendezvous', 'C19.C19_refine', 'C19.C19_step', 'C19.C19_same_world', 'C19.C19_alive_is_reachability', 'C19.C19_receivers_unique', 'Refine.rel_kill',
                  'Refine.dropHandles_char', 'Reach.reachG_iff', 'C03.C03_iff', 'C09.C09_error', 'C09.C09_transit'],
     'builds': ['default', 'memfd', 'force-inprocess'],
     'scenarios': (lambda a: (lambda tier, seed: a(tier, seed) + [{'build': b, 'args': ['set', '--seed', str(seed + k), '--n', str((3000 if tier == 'thorough' else 200) // 2), '--tier', tier]}
@@ -592,7 +592,7 @@ PROPS['C19'] = {
                    '(C19_refine, by a simulation relation over all states); receiver handles stay unique; the reachability iteration is a true fixed point. The three real builds '
                    'are tied to the two readings by executing the same seeded programs (differential)'),
     'level_note': ('Trusted: Lean kernel; the harness; that the OS transport is the descriptor-level reading and the in-process transport the cascade reading is checked by '
-                   'differential execution on seeded programs, not proved from the Rust source; kernel reachability semantics'),
+                   'differential execution on seeded programs; of the in-process transport the error arms of the three receive flavours, the conversions to the public errors and the rendezvous registry operations are regenerated from the source (GenInproc) and proved to give the queue\'s / the OS rendezvous\' answers, crossbeam\'s queue itself is trusted; kernel reachability semantics'),
     'technique': 'Lean 4 refinement theorem (descriptor-level model => ideal FIFO specification) + differential execution of the three builds against the two executable models',
 }
 
@@ -622,7 +622,7 @@ def search_timed(run):
 PROPS['C10'] = {
     'modules': ['IpcModel.Props.C10'],
     'theorems': ['C10.C10_flag', 'C10.C10_try', 'C10.C10_timeout', 'C10.C10_no_poison', 'C10.C10_no_miss', 'C10.C10_wait', 'C10.C10_shape',
-                 'Timed.trace_shape', 'C10.C10_no_early_eof', 'C10.C10_trace_shape'],
+                 'Timed.trace_shape', 'C10.C10_no_early_eof', 'C10.C10_trace_shape', 'C10.C10_inproc'],
     'builds': ['default', 'force-inprocess'],
     'scenarios': (lambda a: (lambda tier, seed: a(tier, seed) + [{'args': ['crash', '--shape', str(i), '--tier', tier, '--observer', 'timed']}
                                                        for i in ((1, 2, 4) if tier == 'thorough' else (1,))]))(timed_scen(['default', 'force-inprocess'], 120, 4000)),
@@ -832,7 +832,7 @@ def search_oneshot(run):
 
 PROPS['C08'] = {
     'modules': ['IpcModel.Props.C08'],
-    'theorems': ['C08.C08_first', 'C08.C08_orders', 'C08.C08_clean_accept', 'C08.C08_clean_drop', 'C08.C08_clean_failed_new', 'C08.C08_distinct', 'C08.C08_shape',
+    'theorems': ['C08.C08_first', 'C08.C08_orders', 'C08.C08_clean_accept', 'C08.C08_clean_drop', 'C08.C08_clean_failed_new', 'C08.C08_distinct', 'C08.C08_shape', 'C08.C08_inproc_registry', 'InprocReg.inv_run',
                  'OneShot.conn_step', 'OneShot.names_step'],
     'scenarios': plus(oneshot_scen(600, 12000), lambda tier, seed: [{'build': b, 'args': ['oneshotip', '--seed', str(seed), '--n', str(600 if tier == 'thorough' else 60), '--tier', tier]} for b in ('default', 'force-inprocess')]),
     'builds': ['default', 'force-inprocess'],
@@ -851,5 +851,5 @@ PROPS['C08'] = {
                    'leaves nothing, accept returns the first message of the first connection and the receiver then yields everything else the client sent in order for every '
                    'interleaving (client before/after accept, client already exited), names are pairwise distinct; real lifecycles compared step by step, temp root and descriptor '
                    'table checked, bound address = returned name'),
-    'level_note': 'Trusted: Lean kernel, translator (shape of new/accept), harness; file-system and mkdtemp behaviour observed, not modelled; in-process registry covered by C19 world programs only',
+    'level_note': 'Trusted: Lean kernel, translator (shape of new/accept), harness; file-system and mkdtemp behaviour observed, not modelled; the in-process registry is modelled separately (InprocReg, variant flags regenerated) and compared with the OneShot model by registry scripts on every build; UUID / mkdtemp name uniqueness assumed',
 }
